@@ -80,7 +80,7 @@ class Ctx:
         s.dec = list(decisions)
         s.pos = 0
         s.solver = z3.Solver()
-        s.solver.set('timeout', 60000)
+        s.solver.set('rlimit', 50000000)
         s.solver.add(*s.pc)
         s.obl = []          # safety obligations: (name, pc snapshot, cond)
         s.notes = []        # free-form notes (effects, dtype ghosts, ...)
@@ -213,6 +213,10 @@ class GS:
         return GS([Term((), Fr(1), 0, ((name, tuple(idx), isdata),), ())])
 
     def __add__(a, b):
+        if isinstance(b, TV):
+            if not a.t:
+                return b
+            raise Unsupported('mixing kernel-mode and term-mode values')
         b = lift(b)
         return GS(a.t + b.t)
     __radd__ = __add__
@@ -230,6 +234,8 @@ class GS:
         if isinstance(b, Sqrt2):
             # sqrt2 = 2 * (1/sqrt2)
             return (a * 2).half()
+        if isinstance(b, TV):
+            return TV.of(a) * b
         b = lift(b)
         out = []
         for t1 in a.t:
@@ -284,8 +290,82 @@ class GS:
         return GS(out)
 
 
+class TV:
+    """term-mode element: a z3 Real expression (used for the non-linear scattering layers); optional tangent
+    (forward-mode derivative) for the gradient obligations"""
+    __slots__ = ('e', 'd')
+
+    def __init__(s, e, d=None):
+        s.e = e if isz(e) else z3.RealVal(str(Fr(e)))
+        s.d = d
+
+    @staticmethod
+    def of(v):
+        if isinstance(v, TV):
+            return v
+        if isinstance(v, GS):
+            if not v.t:
+                return TV(z3.RealVal(0), z3.RealVal(0))
+            raise Unsupported('mixing kernel-mode and term-mode values')
+        if isinstance(v, (int, float, Fr)):
+            return TV(z3.RealVal(str(Fr(v))), z3.RealVal(0))
+        raise Unsupported('cannot lift %r into a term' % (v,))
+
+    def _dd(a):
+        return a.d if a.d is not None else z3.RealVal(0)
+
+    def __add__(a, b):
+        b = TV.of(b)
+        return TV(a.e + b.e, (a._dd() + b._dd()) if (a.d is not None or b.d is not None) else None)
+    __radd__ = __add__
+
+    def __neg__(a):
+        return TV(-a.e, -a.d if a.d is not None else None)
+
+    def __sub__(a, b):
+        return a + (-TV.of(b))
+
+    def __rsub__(a, b):
+        return TV.of(b) + (-a)
+
+    def __mul__(a, b):
+        b = TV.of(b)
+        d = None
+        if a.d is not None or b.d is not None:
+            d = a._dd() * b.e + a.e * b._dd()
+        return TV(a.e * b.e, d)
+    __rmul__ = __mul__
+
+    def __truediv__(a, b):
+        b = TV.of(b)
+        d = None
+        if a.d is not None or b.d is not None:
+            d = (a._dd() * b.e - a.e * b._dd()) / (b.e * b.e)
+        return TV(a.e / b.e, d)
+
+    def guard(a, cond):
+        cond = simp(B(cond))
+        if cond is True:
+            return a
+        if cond is False:
+            return TV(z3.RealVal(0), z3.RealVal(0) if a.d is not None else None)
+        return TV(z3.If(cond, a.e, z3.RealVal(0)), z3.If(cond, a.d, z3.RealVal(0)) if a.d is not None else None)
+
+    def half(a):
+        raise Unsupported('1/sqrt2 scaling in term mode')
+
+
+SQRT = z3.Function('sqrt', z3.RealSort(), z3.RealSort())
+
+
+def tv_sqrt(a):
+    a = TV.of(a)
+    r = SQRT(a.e)
+    return TV(r, (a.d / (2 * r)) if a.d is not None else None)
+
+
 def lift(v):
-    if isinstance(v, GS):
+    if isinstance(v, (GS, TV)):
         return v
     if isinstance(v, (int, float, Fr)):
         return GS.const(Fr(v))
@@ -662,13 +742,38 @@ class STensor:
         return 'STensor%s%s' % (tuple(str(d) for d in s.shape), s.meta.get('name', ''))
 
 
+class DTMismatch:
+    """dtype ghost: operands of different dtypes met (torch raises or silently promotes)"""
+    def __init__(s, a, b):
+        s.a, s.b = a, b
+
+    def __repr__(s):
+        return 'MISMATCH(%r,%r)' % (s.a, s.b)
+
+    def __eq__(s, o):
+        return False
+
+    def __hash__(s):
+        return id(s)
+
+
 def fresh_like(shape, elem, *srcs, **meta):
     m = {}
+    dts = []
     for t in srcs:
         if isinstance(t, STensor):
-            for k in ('dtype', 'kind'):
-                if k in t.meta and k not in m:
-                    m[k] = t.meta[k]
+            if 'kind' in t.meta and 'kind' not in m:
+                m['kind'] = t.meta['kind']
+            if 'dtype' in t.meta:
+                dts.append(t.meta['dtype'])
+    if dts:
+        d0 = dts[0]
+        for d in dts[1:]:
+            if isinstance(d, DTMismatch) or isinstance(d0, DTMismatch) or not (d == d0):
+                d0 = d0 if isinstance(d0, DTMismatch) else (d if isinstance(d, DTMismatch) else DTMismatch(d0, d))
+        m['dtype'] = d0
+        if isinstance(d0, DTMismatch) and CUR.ctx is not None:
+            CUR.ctx.notes.append(('dtype-mismatch', repr(d0)))
     m.update(meta)
     m.setdefault('contig', True)
     return STensor(shape, elem, meta=m)
@@ -945,14 +1050,18 @@ def t_bin(op, a, b):
         shape = b.shape
         fb = b.snap()
         fa = lambda idx: a
+    def _tv(p, q):
+        return isinstance(p, TV) or isinstance(q, TV)
     if op == '+':
-        f = lambda p, q: lift(p) + lift(q) if not isinstance(p, GS) else p + q
+        f = lambda p, q: (TV.of(p) + TV.of(q)) if _tv(p, q) else (lift(p) + lift(q) if not isinstance(p, GS) else p + q)
     elif op == '-':
-        f = lambda p, q: lift(p) - q if not isinstance(p, GS) else p - q
+        f = lambda p, q: (TV.of(p) - TV.of(q)) if _tv(p, q) else (lift(p) - q if not isinstance(p, GS) else p - q)
     elif op == '*':
-        f = lambda p, q: (p * q) if isinstance(p, GS) else (q * p if isinstance(q, GS) else lift(p) * q)
+        f = lambda p, q: (TV.of(p) * TV.of(q)) if _tv(p, q) else ((p * q) if isinstance(p, GS) else (q * p if isinstance(q, GS) else lift(p) * q))
     elif op == '/':
         def f(p, q):
+            if _tv(p, q):
+                return TV.of(p) / TV.of(q)
             if isinstance(q, GS):
                 raise Unsupported('division by data (non-linear)')
             return lift(p) / q
@@ -1055,20 +1164,24 @@ def reshape_groups(old, new):
             guard += 1
             if guard > 12:
                 raise Raised('RuntimeError', 'shape is invalid for input size')
-            # grow the smaller side (decide by entailment po < pn)
-            if j < len(new) and (i >= len(old) or c.entails(I(pn) < I(po)) or
-                                 (is_conc(simp(po)) and is_conc(simp(pn)) and simp(pn) < simp(po))):
+            # grow the smaller side (all extents are >= 1, so <= suffices to pick it)
+            can_new, can_old = j < len(new), i < len(old)
+            if can_new and (not can_old or c.entails(I(pn) <= I(po))):
                 gn.append(j)
                 pn = mulsym(pn, new[j])
                 j += 1
-            elif i < len(old):
+            elif can_old and (not can_new or c.entails(I(po) <= I(pn))):
                 go.append(i)
                 po = mulsym(po, old[i])
                 i += 1
-            elif j < len(new):
+            elif can_new and is_conc(simp(new[j])):
                 gn.append(j)
                 pn = mulsym(pn, new[j])
                 j += 1
+            elif can_old:
+                go.append(i)
+                po = mulsym(po, old[i])
+                i += 1
             else:
                 raise Raised('RuntimeError', 'shape is invalid for input size')
         groups.append((go, gn))
